@@ -368,6 +368,24 @@ def run(ctx):
     ctx.sample({k: v for k, v in fev[-1].items()})
     rej = sigs.judge(ctx, blobs, ev, chunk=1500)
     ctx.traces += len(ev) - len(rej)
+    bad = {i for i, _ in rej}
+    good = [e for i, e in enumerate(ev) if i not in bad]
+
+    def c_claim(field, fn):
+        def f(e):
+            if e['k'] != 'indep':
+                return None
+            e['claimed'] = dict(e['claimed'])
+            e['claimed'][field] = fn(e['claimed'][field])
+            return e
+        return f
+    ctx.selftest(lambda b: sigs.judge(ctx, blobs, b), good,
+                 [('claimed digest does not start with the left-16 field', c_claim('digest', lambda d: [d[0] ^ 1] + d[1:])),
+                  ('claimed signature integers differ from the wire', c_claim('sigmags', lambda m: [[m[0][0] ^ 1] + m[0][1:]] + m[1:])),
+                  ('primitive verdict negative', c_claim('primitive_ok', lambda v: False)),
+                  ('claimed hash input is that of another signature', lambda e: dict(e, claimed=dict(e['claimed'], hashinput=next(x['claimed']['hashinput'] for x in good if x['k'] == 'indep' and x['claimed']['hashinput'] != e['claimed']['hashinput']))) if e['k'] == 'indep' else None),
+                  ('re-import failed', lambda e: dict(e, reimport_ok=False) if e['k'] == 'indep' else None),
+                  ('PGPy rejects a valid foreign signature', lambda e: dict(e, result='falsy') if e['k'] == 'foreign' and e['result'] == 'truthy' else None)], 'C02')
     ctx.extra['pgpy_signatures_checked_by_independent_verifier'] = len(pev)
     ctx.extra['foreign_signatures_given_to_pgpy'] = len(fev)
     ctx.extra['option_combinations'] = len(combos)
